@@ -103,6 +103,26 @@ def specCheck (prop : String) (op res : List String) : String :=
     match envOf h, fromHex b with
     | some e, some (f :: _) => verdict ((res != ["err"]) == C09.legalFlags e f) "envelope flags accepted although illegal for the handler (or legal ones rejected)"
     | _, _ => "nospec"
+  | "C15", ["e2e_hist", _] =>
+    match (" ".intercalate res).splitOn " ## " with
+    | [a, b] =>
+      if (a.splitOn "poolviol=").length > 1 then "fail pooled state misused: " ++ ((a.splitOn "poolviol=").getD 1 "")
+      else verdict (a == b) "outcome on the used Transcoder differs from the outcome on a fresh one"
+    | _ => "fail unparsable result"
+  | "C14", ["e2e_hist", _] =>
+    let r := " ".intercalate res
+    verdict ((r.splitOn "poolviol=").length == 1) ("a pooled buffer or compressor was shared or released twice: " ++ ((r.splitOn "poolviol=").getD 1 ""))
+  | "C14", ["pool_trace", _] =>
+    verdict (res == ["exclusive"]) "recorded pool trace: a buffer was released by a non-holder or handed to two holders"
+  | "C14", "e2e_conc" :: hs =>
+    let parts := (" ".intercalate res).splitOn " ## "
+    if parts.length != hs.length + 1 then "fail unparsable result" else
+    let pool := parts.getLast!
+    if pool != "pool=ok" then "fail pooled buffer or compressor shared between concurrent holders: " ++ pool else
+    -- each RPC's outcome must be the one it has when it runs alone (the solo outcome is the model's,
+    -- which the e2e stream compares with the implementation's solo runs)
+    let bad := (hs.zip parts).filter fun (h, obs) => runE2E h != obs
+    verdict bad.isEmpty ("outcome of a concurrently served RPC differs from its solo outcome (" ++ toString bad.length ++ " of " ++ toString hs.length ++ ")")
   | "C19", ["e2e_getpost", a, b] => specGetPost a b res
   | prop, ["e2e", h] => specE2E prop h res
   | prop, ["e2e_fresh", h] => specE2E prop h res
